@@ -202,6 +202,9 @@ fn scenario_decls(shadow: bool, alias: bool) -> Vec<RDecl> {
         // a local named like its own procedure, and one named like another procedure
         r_vars.push(RVarDecl { name: "r".into(), ty: tname("int") });
         r_body.push(RStmt::Assign(vname("r"), evar("i")));
+        // a local named like a predefined procedure
+        r_vars.push(RVarDecl { name: "time".into(), ty: tname("int") });
+        r_body.push(RStmt::Assign(vname("time"), bin(Op::Add, evar("time"), eint(1))));
         r_vars.push(RVarDecl { name: "q".into(), ty: tname("int") });
         r_vars.push(RVarDecl { name: "v".into(), ty: arr(2, tname("int")) });
         r_body.push(RStmt::Assign(vname("q"), bin(Op::Add, evar("i"), RExpr::Var(idx(vname("v"), evar("q"))))));
